@@ -915,7 +915,15 @@ def part_receive(ctx, only=None):
         descs = {5: D.reflect_class(F.InterestPacketValue), 6: D.reflect_class(F.DataPacketValue),
                  0x64: D.reflect_class(LP.LpPacketValue)}
 
+        counter = [0]
+
         def one(origin, typ, w, with_oracle):
+            # collect_errors() runs a full gc per scenario; keep the long-lived heap (packet lists, evidence
+            # counters) out of its way: everything alive now is moved to the permanent generation
+            counter[0] += 1
+            if counter[0] % 400 == 1:
+                gc.collect()
+                gc.freeze()
             for f in fronts:
                 case = {'front': f.ver, 'typ': typ, 'wire': w, 'origin': origin}
                 ia = f.classify(loop, typ, w)
@@ -950,7 +958,7 @@ def part_receive(ctx, only=None):
         for typ, w in KNOWN_WITNESSES:
             one('corpus', typ, w, True)
         pk = valid_packets(ctx)
-        budget = ctx.n(1500, 20000)           # oracle scenarios (each builds an application)
+        budget = ctx.n(5000, 40000)           # oracle scenarios (each builds an application)
         total = 0
         per = []
         for kind, typ, w in pk:
@@ -960,7 +968,7 @@ def part_receive(ctx, only=None):
         for ms in per:
             for origin, typ, w in ms:
                 one(origin, typ, w, origin.startswith('valid') or rng.random() < p_or)
-        for _ in range(ctx.n(800, 20000)):
+        for _ in range(ctx.n(2500, 30000)):
             n = rng.choice([0, 1, 2, 3, 5, 8, 16, 40, 200])
             body = G.rand_bytes(rng, n)
             typ = rng.choice([5, 6, 0x64, 0x64, 9, rng.randrange(0, 70000)])
@@ -972,6 +980,7 @@ def part_receive(ctx, only=None):
     finally:
         utils.timestamp = old_ts
         loop.close()
+        gc.unfreeze()
 
 
 def run(ctx):
